@@ -149,7 +149,7 @@ impl Prop for C16 {
         "exploration"
     }
     fn rule(&self) -> String {
-        "run = the `mlar` binary built from the working tree, against a private scratch tree <scratch>/{sandbox/{canary files, sub/canary, out?}, outside-canary, archive.mla}. The archive is written by the library (prod build) with member names drawn from a path grammar: components '..', '.', empty, 200/255-byte, unicode, spaces, '-o', '*', in every position; prefixes '/', '//', './', '../', '../../../../../../../../'; trailing '/'. Command history (seeded): whole-archive extract, extract of one listed name, glob extract ('*' or a seeded pattern), repeated into the same output directory, output directory given relative (cwd = sandbox) or absolute, existing or not. One run in five starts with symbolic links already in the output directory (to a directory outside it, to a file outside it, to a directory inside it, to a sibling directory and a sibling file whose names begin with the output directory's name - out.bak/, out.log) and member names that go through them (`lnkdir/x`, `lnkdir/sub/deeper/x`, `lnkfile`, `inlink/../lnkfile`...); in those runs only files are compared. Oracle 1 (all runs): a recursive snapshot (path, type, size, SHA-256, mtime) of the whole scratch tree outside the output directory is unchanged after every command. Oracle 2 (runs whose member names are collision-free once normalised): exit status 0 and every member without a '..' component exists beneath the output directory at its normalised path with exactly its content; members with '..' produce no file anywhere. distinct_nontrivial = distinct (name shape classes, command kinds, relative/absolute, collision-free?) signatures.".into()
+        "run = the `mlar` binary built from the working tree, against a private scratch tree <scratch>/{sandbox/{canary files, sub/canary, out?}, outside-canary, archive.mla}. The archive is written by the library (prod build) with member names drawn from a path grammar: components '..', '.', empty, 200/255-byte, unicode, spaces, '-o', '*', in every position; prefixes '/', '//', './', '../', '../../../../../../../../'; trailing '/'. Command history (seeded): whole-archive extract, extract of one listed name, glob extract ('*' or a seeded pattern), repeated into the same output directory, output directory given relative (cwd = sandbox) or absolute, existing or not, and in eight forms (plain, trailing '/', '.' from inside it, './out', 'sub/../out', a symbolic link to it, a working directory reached through a symbolic link). One run in five starts with symbolic links already in the output directory (to a directory outside it, to a file outside it, to a directory inside it, to a sibling directory and a sibling file whose names begin with the output directory's name - out.bak/, out.log) and member names that go through them (`lnkdir/x`, `lnkdir/sub/deeper/x`, `lnkfile`, `inlink/../lnkfile`...); in those runs only files are compared. Oracle 1 (all runs): a recursive snapshot (path, type, size, SHA-256, mtime) of the whole scratch tree outside the output directory is unchanged after every command. Oracle 2 (runs whose member names are collision-free once normalised): exit status 0 and every member without a '..' component exists beneath the output directory at its normalised path with exactly its content; members with '..' produce no file anywhere. distinct_nontrivial = distinct (name shape classes, command kinds, relative/absolute, collision-free?) signatures.".into()
     }
     fn assumptions(&self) -> Vec<String> {
         vec![
@@ -222,6 +222,9 @@ impl Prop for C16 {
         case.params.insert("cmd_seed".into(), (rng.u64() >> 1) as i64);
         case.params.insert("absolute".into(), i64::from(rng.chance(1, 2)));
         case.params.insert("out_exists".into(), i64::from(rng.chance(1, 2)));
+        // the FORM of the output directory argument: plain, trailing '/', '.', './out', 'sub/../out', a symbolic link
+        // to the directory, and a working directory itself reached through a symbolic link
+        case.params.insert("out_form".into(), rng.below(8) as i64);
         case
     }
     fn exec(&self, case: &Case, ctx: &mut Ctx) -> Vec<Violation> {
@@ -271,7 +274,36 @@ impl Prop for C16 {
         // directory before it notices that the path leaves the output directory)
         let files_only = |m: BTreeMap<String, (char, u64, [u8; 32], u128)>| -> BTreeMap<String, (char, u64, [u8; 32], u128)> { if symlinks { m.into_iter().filter(|(_, v)| v.0 == 'f').collect() } else { m } };
         let absolute = case.param("absolute", 0) == 1;
-        let out_arg = if absolute { out_abs.to_string_lossy().to_string() } else { "out".to_string() };
+        let out_form = case.param("out_form", 0);
+        let base = if absolute { format!("{}/", sandbox.to_string_lossy()) } else { String::new() };
+        let mut cwd = sandbox.clone();
+        let out_arg = match out_form {
+            2 => format!("{base}out/"),
+            3 => {
+                // '.' from inside the output directory
+                std::fs::create_dir_all(&out_abs).unwrap();
+                cwd = out_abs.clone();
+                if absolute { format!("{}/.", out_abs.to_string_lossy()) } else { ".".to_string() }
+            }
+            4 => format!("{}out", if absolute { format!("{base}./") } else { "./".to_string() }),
+            5 => format!("{base}sub/../out"),
+            6 => {
+                // the argument is a symbolic link to the output directory
+                std::fs::create_dir_all(&out_abs).unwrap();
+                let _ = std::os::unix::fs::symlink("out", sandbox.join("outlink"));
+                format!("{base}outlink")
+            }
+            7 => {
+                // the working directory is reached through a symbolic link
+                let _ = std::os::unix::fs::symlink("sandbox", root.join("sblink"));
+                cwd = root.join("sblink");
+                if absolute { format!("{}/out", cwd.to_string_lossy()) } else { "out".to_string() }
+            }
+            _ => format!("{base}out"),
+        };
+        if out_form >= 2 {
+            crate::seams::fired("output_dir_argument_in_another_form");
+        }
         let archive = root.join("archive.mla").to_string_lossy().to_string();
         let mut crng = Rng::new(case.param("cmd_seed", 1) as u64);
         let ncmd = crng.range(1, 3);
@@ -311,12 +343,12 @@ impl Prop for C16 {
                 }
             }
             let argv: Vec<&str> = args.iter().map(String::as_str).collect();
-            let r = mlar(&sandbox, &argv, None);
+            let r = mlar(&cwd, &argv, None);
             ctx.eval();
             let after = files_only(snapshot(&root, &out_abs));
             if after != before {
                 let changed: Vec<String> = after.iter().filter(|(k, val)| before.get(*k) != Some(*val)).map(|(k, _)| k.clone()).chain(before.keys().filter(|k| !after.contains_key(*k)).cloned()).take(5).collect();
-                v.push(Violation::new("wrote-outside-output-dir", format!("{}{}", kinds.last().unwrap(), if symlinks { "|symlinks" } else { "" }), format!("after `mlar {}` (cwd sandbox): the tree outside the output directory changed: {:?} (members {:?})", args[..args.len().min(8)].join(" "), changed, model.order.iter().map(|n| n.chars().take(30).collect::<String>()).collect::<Vec<_>>())));
+                v.push(Violation::new("wrote-outside-output-dir", format!("{}{}", kinds.last().unwrap(), if symlinks { "|symlinks" } else { "" }), format!("after `mlar {}` (cwd {}): the tree outside the output directory changed: {:?} (members {:?})", args[..args.len().min(8)].join(" "), cwd.strip_prefix(&root).unwrap_or(&cwd).display(), changed, model.order.iter().map(|n| n.chars().take(30).collect::<String>()).collect::<Vec<_>>())));
                 break;
             }
             if collision_free {
@@ -363,7 +395,7 @@ impl Prop for C16 {
             if !n.is_ascii() { v.push("unicode"); }
             v
         }).collect();
-        ctx.sig(format!("{}|{}|abs{}|cf{}|sl{}|{}", kinds.join("+"), case.cfg.layer_name(), absolute, collision_free, symlinks, shapes.into_iter().collect::<Vec<_>>().join("+")));
+        ctx.sig(format!("{}|{}|abs{}|of{}|cf{}|sl{}|{}", kinds.join("+"), case.cfg.layer_name(), absolute, out_form, collision_free, symlinks, shapes.into_iter().collect::<Vec<_>>().join("+")));
         let _ = std::fs::remove_dir_all(&root);
         v
     }
